@@ -68,6 +68,7 @@ type IterProto struct {
 	Dom    *SExpr
 	Match  *SExpr
 	Args   []*SExpr // expected argument values in terms of IdxVar (one per callback param)
+	At     *SExpr   // ghost index of a callback call when the callback has no index parameter (evaluated at the call site, e.g. $i)
 }
 
 type FuncContract struct {
@@ -518,6 +519,8 @@ func (cs *Contracts) parseFile(pkg string, lines []string, where string) {
 						p.next()
 						ip.Args = append(ip.Args, p.parseExpr())
 					}
+				case "at":
+					ip.At = p.parseExpr()
 				default:
 					panic(w + ": iter: unknown part " + k)
 				}
